@@ -485,17 +485,31 @@ fn run_idct_batch(ev: &mut Value, blocks: &[Value], per_line: usize) {
 }
 
 fn run_idct(ev: &mut Value, blocks: &[Value]) {
+    // "cw" x "ch" (default 8 x 8): the size of the output plane - a block at the right or bottom edge of a
+    // picture whose size is not a multiple of 8 is written into fewer columns / rows.  The outputs are
+    // reported in the 8 x 8 layout; positions outside the plane keep the pre-fill value.
+    let cw = (ev["cw"].as_u64().unwrap_or(8) as usize).clamp(1, 8);
+    let ch = (ev["ch"].as_u64().unwrap_or(8) as usize).clamp(1, 8);
     let r = guarded(|| {
         let mut o0 = Vec::new();
         let mut o255 = Vec::new();
         for b in blocks {
             let blk = [block_from(b)];
-            let mut out = vec![0u8; 64];
-            hk::idct_channel(&blk, &mut out, 1, 8);
-            o0.push(out);
-            let mut out = vec![255u8; 64];
-            hk::idct_channel(&blk, &mut out, 1, 8);
-            o255.push(out);
+            for fill in [0u8, 255u8] {
+                let mut plane = vec![fill; cw * ch];
+                hk::idct_channel(&blk, &mut plane, 1, cw);
+                let mut out = vec![fill; 64];
+                for y in 0..ch {
+                    for x in 0..cw {
+                        out[y * 8 + x] = plane[y * cw + x];
+                    }
+                }
+                if fill == 0 {
+                    o0.push(out);
+                } else {
+                    o255.push(out);
+                }
+            }
         }
         (o0, o255)
     });
